@@ -87,12 +87,13 @@ def conc_int(x):
 
 class Arr:
     """immutable symbolic n-d array value: shape (ints or z3 Ints) and an element closure"""
-    __slots__ = ('shape', 'elem', 'kind')
+    __slots__ = ('shape', 'elem', 'kind', 'inv')
 
-    def __init__(self, shape, elem, kind='real'):
+    def __init__(self, shape, elem, kind='real', inv=None):
         self.shape = tuple(shape)
         self.elem = elem
         self.kind = kind
+        self.inv = inv            # for an index array known to be a permutation: its inverse (position of index j)
 
     @property
     def ndim(self):
